@@ -98,6 +98,12 @@ func (o Operand) value() reflect.Value {
 	case "iface":
 		var x interface{} = v.Interface()
 		return reflect.ValueOf(&x).Elem()
+	case "ifaceptr":
+		// an interface value holding a pointer to the operand
+		p := reflect.New(v.Type())
+		p.Elem().Set(v)
+		var x interface{} = p.Interface()
+		return reflect.ValueOf(&x).Elem()
 	case "nilptr":
 		return reflect.Zero(reflect.PointerTo(v.Type()))
 	}
@@ -132,6 +138,8 @@ func (o Operand) gallina() string {
 		return "(VPtr (Some (VPtr (Some " + b + "))))"
 	case "iface":
 		return "(VIface (Some " + b + "))"
+	case "ifaceptr":
+		return "(VIface (Some (VPtr (Some " + b + "))))"
 	case "nilptr":
 		return "(VPtr None)"
 	}
@@ -246,7 +254,7 @@ func c19Operands(p *prng, tier string) []Operand {
 		Operand{Kind: "float64", FBits: math.Float64bits(math.NaN())}, Operand{Kind: "int", I: 3, Wrap: "nilptr"})
 	// wrapped variants of a sample
 	n := len(ops)
-	wraps := []string{"ptr", "iface", "ptrptr"}
+	wraps := []string{"ptr", "iface", "ptrptr", "ifaceptr"}
 	stride := 7
 	if tier == "thorough" {
 		stride = 2
@@ -456,7 +464,7 @@ func runC19(seed uint64, tier string, out string) error {
 	rep.Exhaustive = true
 	rep.Rule = "every ordered pair of the operand table (all numeric kinds x boundary values within int64, strings, bools, times in 4 locations with/without monotonic reading, plus pointer/interface-wrapped and out-of-domain extras) x 6 operators; non-trivial = same-family pair; distinct by (kind, wrapping, denoted value) of both sides"
 	rep.Extra["operands"] = len(ops)
-	if err := writeShards(out, "From Grule Require Import Base Values ArithGen Corr.", "c19_mismatches", "c19case", cases, 16); err != nil {
+	if err := writeShards(out, "From Grule Require Import Base Values CmpGen Corr.", "c19_mismatches", "c19case", cases, 16); err != nil {
 		return err
 	}
 	return rep.write(out, index)
